@@ -397,3 +397,26 @@ PROPS['C16'] = {
 MANIFEST_TEXT['C16'] = {'claim': 'generated listings from a site model, hostile text, overlong lines at every position class, truncations and unreadable paths against both parsers; no panic, error instead of partial result, function scoping, table membership and the function-concatenation law',
                         'note': 'in-process calls of disasm.ExtractSyscalls on temporary files; read failures are provoked through the file system (directory, /proc/self/mem, scanner limit)',
                         'technique': 'property-based testing (rapid) with metamorphic oracle (concatenation law) and containment against a site model; native fuzz target (thorough)'}
+
+_PROFILER = [{'name': 'seccomp-profiler', 'from_repo': 'github.com/elastic/go-seccomp-bpf/cmd/seccomp-profiler', 'tags': ''}, 'fakego', 'hello',
+             {'name': 'hello', 'goarch': '386'}]
+
+PROPS['C17'] = {
+    'level': 'fault_enumeration',
+    'rule': ('cases = histories against the built profiler with a fake `go` tool first on PATH and a private HOME (uid 60001): 1..4 operations out of run-ok, run-crash (the tool writes n bytes of a generated listing and blocks; '
+             'once the cache file has stopped growing the profiler and the tool are SIGKILLed - the cache is whatever the implementation left), run-toolfail (tool exits 1/2/3/127/255 after n bytes), run-toolmissing, change-binary '
+             '(other content at the same path, other listing), then a final normal run; n is taken from the classes: 0, inside the first line, every flush boundary of the 4096-byte writer -1/0/+1, line boundaries, just before / '
+             'inside / just after a syscall site, all but one byte, arbitrary fraction; listings come from the site model (5..200 sites, 3..60 distinct syscalls); oracle: every run that exits 0 (in particular the final one) prints '
+             'exactly the profile of a cold-cache run (fresh HOME) for the current binary; a history is non-trivial iff it contains a crash or a tool failure; distinct by hash of the case JSON'),
+    'assumptions': ['crash = SIGKILL of the profiler\'s process group after its cache file stopped growing; power-failure reorderings of file system writes are not modelled',
+                    'the profiler is built with CGO_ENABLED=0 and run as a uid without passwd entry so that $HOME selects a private cache directory'],
+    'required_classes': {'all': ['crash-before-first-flush', 'crash-between-flushes', 'tool-exit-nonzero-after-partial-output', 'tool-missing', 'binary-changed', 'final-run-correct-profile',
+                                 'binary:amd64', 'binary:386']},
+    'units': [
+        {'test': 'TestC17Cache', 'checks': {'quick': 96, 'thorough': 4000}, 'shards': {'quick': 8, 'thorough': 16}, 'helpers': _PROFILER,
+         'timeout': {'quick': 500, 'thorough': 3300}},
+    ],
+}
+MANIFEST_TEXT['C17'] = {'claim': 'generated crash / tool-failure histories against the built profiler: SIGKILL after n bytes for n in every interesting class (flush boundaries, line and site boundaries), tool exit codes, missing tool, changed binary; every successful later run must equal a cold-cache run',
+                        'note': 'crash points are enumerated by class of prefix length; the cache content is whatever the implementation left behind, the harness never writes it',
+                        'technique': 'property-based testing (rapid) of fault histories; crash/fault injection at process boundaries; differential against a cold-cache run'}
